@@ -27,7 +27,10 @@ static volatile bool armed = false;          // A is inside its call under test
 static volatile long lockCount = 0, pauseAt = 0;
 static pthread_mutex_t schedM = PTHREAD_MUTEX_INITIALIZER;
 static pthread_cond_t schedC = PTHREAD_COND_INITIALIZER;
-static volatile bool aPaused = false, bDone = false, aMayGo = false;
+static volatile bool aPaused = false, bDone = false, aMayGo = false, aDone = false;
+// a two-phase B (closelast_openlogin): between its calls B lets A finish - k > 0: release A and wait for it; k = -3: run A's
+// call here (the third sequential order B1;A;B2); otherwise nothing
+static void (*midB)() = NULL;
 
 static CK_RV cbCreate(CK_VOID_PTR_PTR pp) { pthread_mutex_t *m = new pthread_mutex_t; pthread_mutex_init(m, NULL); *pp = m; return CKR_OK; }
 static CK_RV cbDestroy(CK_VOID_PTR p) { pthread_mutex_destroy((pthread_mutex_t *)p); delete (pthread_mutex_t *)p; return CKR_OK; }
@@ -155,6 +158,7 @@ static Res opOpenLoginCreateB(Ctx &c)
 	if (!s) { r.rv = CKR_GENERAL_ERROR; return r; }
 	CK_RV lv = F->C_Login(s, CKU_USER, (CK_UTF8CHAR_PTR)"user1234", 8);
 	if (lv != CKR_OK && lv != CKR_USER_ALREADY_LOGGED_IN) { r.rv = lv; return r; }
+	if (midB) midB();
 	CK_OBJECT_HANDLE h = mkObj(s, "newB", false, true, "bbbb");
 	// the session state B sees after its own login: 3 = CKS_RW_USER_FUNCTIONS
 	CK_SESSION_INFO si; memset(&si, 0, sizeof si); F->C_GetSessionInfo(s, &si);
@@ -247,7 +251,17 @@ static void *churnThread(void *p)
 static Ctx C;
 static Scenario *S;
 static Res RA, RB;
-static void *runA(void *) { armed = true; RA = S->a(C); armed = false; pthread_mutex_lock(&schedM); aPaused = true; pthread_cond_broadcast(&schedC); pthread_mutex_unlock(&schedM); return NULL; }
+static void *runA(void *) { armed = true; RA = S->a(C); armed = false; pthread_mutex_lock(&schedM); aPaused = true; aDone = true; pthread_cond_broadcast(&schedC); pthread_mutex_unlock(&schedM); return NULL; }
+static void midRelease()
+{
+	pthread_mutex_lock(&schedM);
+	aMayGo = true;
+	pthread_cond_broadcast(&schedC);
+	struct timespec ts; clock_gettime(CLOCK_REALTIME, &ts); ts.tv_sec += 10;
+	while (!aDone) if (pthread_cond_timedwait(&schedC, &schedM, &ts) != 0) break;
+	pthread_mutex_unlock(&schedM);
+}
+static void midRunA() { RA = S->a(C); }
 static void *runB(void *) { RB = S->b(C); pthread_mutex_lock(&schedM); bDone = true; pthread_cond_broadcast(&schedC); pthread_mutex_unlock(&schedM); return NULL; }
 static void *watchdog(void *) { sleep(25); printf("TIMEOUT\n"); fflush(stdout); _exit(3); return NULL; }
 
@@ -344,8 +358,10 @@ int main(int argc, char **argv)
 	thrA = pthread_self();
 	if (k == -1) { RA = S->a(C); RB = S->b(C); }
 	else if (k == -2) { RB = S->b(C); RA = S->a(C); }
+	else if (k == -3) { midB = midRunA; RB = S->b(C); if (midB == midRunA && RA.out.empty()) RA = S->a(C); }
 	else {
 		pauseAt = k;
+		if (k > 0) midB = midRelease;
 		pthread_t ta, tb;
 		pthread_mutex_lock(&schedM);
 		pthread_create(&ta, NULL, runA, NULL);
